@@ -712,6 +712,7 @@ fn base_spec(prop: &str, hist: Vec<SOp>, cfg: Cfg) -> HistSpec {
         max_executions: 200_000,
         lock_window: false,
         nested: false,
+        fixed: false,
     }
 }
 
@@ -777,6 +778,7 @@ pub fn sched_specs(prop: &str, tier: &str) -> Vec<HistSpec> {
                             continue;
                         }
                         let mut s = base_spec(prop, h.clone(), c);
+                        s.fixed = !thorough;
                         s.crash = true;
                         s.o_c03 = prop == "C03";
                         s.o_c05 = prop == "C05";
@@ -813,6 +815,7 @@ pub fn sched_specs(prop: &str, tier: &str) -> Vec<HistSpec> {
             // the removal must not overtake the write/sync of its own batch
             for c in [Cfg::records(2), Cfg::records(3)] {
                 let mut s = base_spec(prop, schedx::from_syms(&[Sym::A, Sym::F, Sym::W, Sym::Pfirst, Sym::F]), c);
+                s.fixed = true;
                 s.crash = true;
                 s.o_c03 = prop == "C03";
                 s.o_c05 = prop == "C05";
@@ -820,6 +823,7 @@ pub fn sched_specs(prop: &str, tier: &str) -> Vec<HistSpec> {
             }
             for sh in [vec![Sym::A, Sym::Pfirst, Sym::F], vec![Sym::A, Sym::Pfirst, Sym::F, Sym::W]] {
                 let mut s = base_spec(prop, schedx::from_syms(&sh), Cfg::records(2));
+                s.fixed = true;
                 s.crash = true;
                 s.o_c03 = prop == "C03";
                 s.o_c05 = prop == "C05";
@@ -827,6 +831,7 @@ pub fn sched_specs(prop: &str, tier: &str) -> Vec<HistSpec> {
             }
             for sh in shapes {
                 let mut s = base_spec(prop, schedx::from_syms(&sh), Cfg::records(3));
+                s.fixed = true;
                 s.crash = true;
                 s.o_c03 = prop == "C03";
                 s.o_c05 = prop == "C05";
@@ -880,6 +885,7 @@ pub fn sched_specs(prop: &str, tier: &str) -> Vec<HistSpec> {
                 // the next flush (rotation at every write, one fdatasync failure)
                 {
                     let mut s3 = base_spec(prop, schedx::from_syms(&[Sym::A, Sym::A, Sym::F]), Cfg::records(2));
+                    s3.fixed = true;
                     s3.o_c04 = true;
                     s3.max_faults = 1;
                     s3.fault_policy = FaultPolicy::WorkerSyncEio;
@@ -892,6 +898,7 @@ pub fn sched_specs(prop: &str, tier: &str) -> Vec<HistSpec> {
                             continue;
                         }
                         let mut s2 = base_spec(prop, schedx::from_syms(&sh), c);
+                        s2.fixed = true;
                         s2.o_c04 = true;
                         s2.max_faults = 2;
                         s2.fault_policy = FaultPolicy::WorkerSyncEio;
@@ -980,6 +987,7 @@ pub fn sched_specs(prop: &str, tier: &str) -> Vec<HistSpec> {
             };
             for h in lw {
                 let mut s = base_spec(prop, schedx::from_syms(&h), Cfg::records(3));
+                s.fixed = true;
                 s.o_c07 = true;
                 s.lock_window = true;
                 out.push(s);
@@ -995,6 +1003,7 @@ pub fn sched_specs(prop: &str, tier: &str) -> Vec<HistSpec> {
                         continue;
                     }
                     let mut s = base_spec(prop, schedx::from_syms(&f), Cfg::records(3).with_cache(*items, *cap));
+                    s.fixed = true;
                     s.o_c07 = true;
                     out.push(s);
                 }
@@ -1058,11 +1067,13 @@ pub fn sched_specs(prop: &str, tier: &str) -> Vec<HistSpec> {
                     let cfgs: Vec<Cfg> = if len <= 3 { vec![Cfg::records(2), Cfg::records(3)] } else { vec![Cfg::records(2)] };
                     for c in &cfgs {
                         let mut s = base_spec(prop, h.clone(), *c);
+                        s.fixed = h.len() > len;
                         s.o_c08 = true;
                         s.crash = true;
                         s.o_c03 = true;
                         out.push(s);
                         let mut f = base_spec(prop, h.clone(), *c);
+                        f.fixed = h.len() > len;
                         f.o_c08 = true;
                         f.max_faults = if thorough && len <= 3 { 2 } else { 1 };
                         f.fault_policy = FaultPolicy::WorkerEio;
@@ -1077,6 +1088,8 @@ pub fn sched_specs(prop: &str, tier: &str) -> Vec<HistSpec> {
         }
         _ => {}
     }
+    // hand-picked shapes first (stable): a wall cap then cuts the enumerated tail
+    out.sort_by_key(|s| !s.fixed);
     out
 }
 
@@ -1159,13 +1172,14 @@ pub fn reader_specs(tier: &str) -> Vec<crate::readers::ReaderSpec> {
     } else {
         // (second shape: two entries above 64 KiB in one closed chunk, read from disk
         // by both readers at once)
-        vec![vec![Sym::A, Sym::A, Sym::F], vec![Sym::Agiant, Sym::Agiant, Sym::F]]
+        // (first: one entry above 64 KiB and a small one in a closed chunk, both readers
+        // read the large one from disk at once)
+        vec![vec![Sym::Agiant, Sym::A, Sym::F], vec![Sym::A, Sym::A, Sym::F]]
     };
     let mut out = vec![];
-    let n_shapes = shapes.len();
     for (si, sh) in shapes.into_iter().enumerate() {
         for (items, cap) in [(Some(0usize), None), (Some(1), None), (None, Some(5usize))] {
-            if !thorough && (items == Some(1) || (si + 1 == n_shapes && cap.is_some())) {
+            if !thorough && (items == Some(1) || (si == 0 && cap.is_some())) {
                 continue;
             }
             out.push(crate::readers::ReaderSpec {
